@@ -707,6 +707,151 @@ impl Heap {
   // compactify is not implemented for now. It's likely not needed for a while.
 }
 
+/// Verification hook (off by default): slot-state statistics returned by the invariant walker.
+#[cfg(samlang_verif)]
+#[derive(Debug, Default, Clone, PartialEq, Eq)]
+pub struct VerifHeapStats {
+  pub slots: usize,
+  pub permanent: usize,
+  pub temporary_marked: usize,
+  pub temporary_unmarked: usize,
+  pub deallocated: usize,
+  pub interned: usize,
+  pub interned_static: usize,
+  pub module_references: usize,
+  pub unmarked_module_references: usize,
+  pub sweep_index: usize,
+}
+
+#[cfg(samlang_verif)]
+impl PStr {
+  /// Verification hook: the slot id of a heap-resident handle, None for inline handles.
+  pub fn verif_heap_id(&self) -> Option<u32> {
+    self.0.as_heap_id()
+  }
+}
+
+#[cfg(samlang_verif)]
+impl Heap {
+  /// Verification hook: walks the slot table and the intern maps and checks that they agree.
+  /// Read-only; single-threaded use under `&self`.
+  pub fn verif_check_invariants(&self) -> Result<VerifHeapStats, String> {
+    let mut stats = VerifHeapStats {
+      slots: self.str_pointer_table.len(),
+      interned: self.interned_string.len(),
+      interned_static: self.interned_static_str.len(),
+      module_references: self.module_reference_pointer_table.len(),
+      unmarked_module_references: self.unmarked_module_references.len(),
+      sweep_index: self.sweep_index,
+      ..VerifHeapStats::default()
+    };
+    for (i, slot) in self.str_pointer_table.iter().enumerate() {
+      match slot {
+        StringStoredInHeap::Permanent(p) => {
+          stats.permanent += 1;
+          if p.len() > 15 {
+            match self.interned_static_str.get(p) {
+              Some(id) if *id as usize == i => {}
+              other => {
+                return Err(format!(
+                  "permanent slot {i} ({p:?}) is keyed as {other:?} in interned_static_str"
+                ));
+              }
+            }
+            if let Some(id) = self.interned_string.get(p) {
+              return Err(format!("permanent slot {i} ({p:?}) also interned as temporary {id}"));
+            }
+          }
+        }
+        StringStoredInHeap::Temporary(s, marked) => {
+          if *marked {
+            stats.temporary_marked += 1
+          } else {
+            stats.temporary_unmarked += 1
+          }
+          match self.interned_string.get_key_value(s.as_str()) {
+            Some((k, id)) if *id as usize == i => {
+              if k.as_ptr() != s.as_ptr() || k.len() != s.len() {
+                return Err(format!("temporary slot {i} ({s:?}) is keyed by a foreign pointer"));
+              }
+            }
+            other => {
+              return Err(format!(
+                "temporary slot {i} ({s:?}) is keyed as {:?} in interned_string",
+                other.map(|(_, id)| *id)
+              ));
+            }
+          }
+          if s.len() <= 15 {
+            return Err(format!("temporary slot {i} holds an inline-sized string {s:?}"));
+          }
+          if let Some(id) = self.interned_static_str.get(s.as_str()) {
+            return Err(format!("temporary slot {i} ({s:?}) also interned as permanent {id}"));
+          }
+        }
+        StringStoredInHeap::Deallocated(_) => stats.deallocated += 1,
+      }
+    }
+    for (k, id) in &self.interned_string {
+      match self.str_pointer_table.get(*id as usize) {
+        Some(StringStoredInHeap::Temporary(s, _)) if s.as_str() == *k => {}
+        Some(StringStoredInHeap::Temporary(s, _)) => {
+          return Err(format!("interned_string key {k:?} -> slot {id} holding {s:?}"));
+        }
+        Some(StringStoredInHeap::Permanent(_)) => {
+          return Err(format!("interned_string key {k:?} -> permanent slot {id}"));
+        }
+        Some(StringStoredInHeap::Deallocated(_)) => {
+          return Err(format!("interned_string key {k:?} -> deallocated slot {id}"));
+        }
+        None => return Err(format!("interned_string key {k:?} -> missing slot {id}")),
+      }
+    }
+    for (k, id) in &self.interned_static_str {
+      match self.str_pointer_table.get(*id as usize) {
+        Some(StringStoredInHeap::Permanent(p)) if p == k => {}
+        Some(StringStoredInHeap::Permanent(p)) => {
+          return Err(format!("interned_static_str key {k:?} -> slot {id} holding {p:?}"));
+        }
+        Some(_) => return Err(format!("interned_static_str key {k:?} -> non-permanent slot {id}")),
+        None => return Err(format!("interned_static_str key {k:?} -> missing slot {id}")),
+      }
+    }
+    if self.sweep_index != 0 && self.sweep_index >= self.str_pointer_table.len() {
+      return Err(format!(
+        "sweep_index {} out of range (slots {})",
+        self.sweep_index,
+        self.str_pointer_table.len()
+      ));
+    }
+    for (parts, mod_ref) in &self.interned_module_reference {
+      match self.module_reference_pointer_table.get(mod_ref.0) {
+        Some(p) if p == parts => {}
+        _ => return Err(format!("module reference {} is not keyed by its own parts", mod_ref.0)),
+      }
+      for part in parts.iter() {
+        if let Some(id) = part.0.as_heap_id()
+          && !matches!(
+            self.str_pointer_table.get(id as usize),
+            Some(StringStoredInHeap::Permanent(_))
+          )
+        {
+          return Err(format!(
+            "module reference {} has a non-permanent part (slot {id})",
+            mod_ref.0
+          ));
+        }
+      }
+    }
+    for m in &self.unmarked_module_references {
+      if m.0 >= self.module_reference_pointer_table.len() {
+        return Err(format!("unmarked module reference {} does not exist", m.0));
+      }
+    }
+    Ok(stats)
+  }
+}
+
 impl Default for Heap {
   fn default() -> Self {
     Self::new()
